@@ -329,6 +329,14 @@ func c16BF(prec uint, s string) cty.Value {
 	return cty.NumberVal(f)
 }
 
+// c16Wide is 2^k + d held at exactly the precision it needs.
+func c16Wide(k uint, d int64) cty.Value {
+	z := new(big.Int).Lsh(big.NewInt(1), k)
+	z.Add(z, big.NewInt(d))
+	f := new(big.Float).SetPrec(uint(z.BitLen())).SetInt(z)
+	return cty.NumberVal(f)
+}
+
 // the numbers the quantifier names, beyond what genNumber already covers
 var c16NumPool = func() []cty.Value {
 	vs := []cty.Value{
@@ -345,6 +353,9 @@ var c16NumPool = func() []cty.Value {
 		cty.MustParseNumberVal("1e40"), cty.MustParseNumberVal("1e200"), cty.MustParseNumberVal("-1e154"),
 		c16BF(100, "0.1"), c16BF(100, "-3.3"), c16BF(24, "0.1"), c16BF(600, "0.1"), c16BF(20, "1e30"), c16BF(70, "1e25"), c16BF(64, "0x1p+70"), c16BF(600, "0x1.000000000000000000000000000001p+100"),
 		c16BF(8, "0x1p+200"), c16BF(30, "12345678912345"), c16BF(1, "0x1p+64"),
+		// whole numbers at the edge of what the decoder's 512-bit parse keeps: 2^512-1 (fits), 2^512+1 at 513 bits (does not)
+		// (2^513+3 at 514 bits is rounded UP by the decoder)
+		c16Wide(512, -1), c16Wide(512, 1), c16Wide(513, 3), c16BF(8, "0x1p+3000"),
 		cty.PositiveInfinity, cty.NegativeInfinity, cty.NumberFloatVal(math.Inf(1)), cty.NumberVal(new(big.Float).SetInf(true)),
 		cty.NumberVal(new(big.Float).Neg(new(big.Float))), cty.Zero,
 	}
@@ -601,10 +612,12 @@ func c16NumSig(f *big.Float) string {
 	whole, f64 := c16IsWholeOrF64(f)
 	_, acc := f.Int64()
 	switch {
-	case whole && acc != big.Exact && f.Text('f', -1) != f.Text('f', 0):
-		// the shortest decimal text that identifies the number at its own precision is not its exact value
-		return "whole-beyond-int64-shortest-text-inexact"
+	case whole && acc != big.Exact && f.MinPrec() > 512:
+		// all digits are written (since /repo 986ad55), but the decoder parses at 512 bits
+		return "whole-wider-than-512-bits"
 	case whole && acc != big.Exact:
+		// (until /repo 986ad55 the class whole-beyond-int64-shortest-text-inexact lived here: the shortest
+		// text of a whole number held at few bits is another number; all digits are written now)
 		return "whole-beyond-int64"
 	case whole:
 		return "int64"
@@ -791,8 +804,17 @@ func c16TypeSig(v cty.Value, ct cty.Type) string {
 	return sig
 }
 
+// c16EncText: the decimal text Marshal writes for a number that travels as text
+// (all digits of a whole number, the shortest identifying text otherwise).
+func c16EncText(f *big.Float) string {
+	if f.IsInt() {
+		return f.Text('f', 0)
+	}
+	return f.Text('f', -1)
+}
+
 // c16InexactText: the root-cause class of a number (known, or a bound of an unknown)
-// somewhere in v whose decimal text `Text('f', -1)` does not parse back (at 512
+// somewhere in v whose decimal text as Marshal writes it does not parse back (at 512
 // bits) to the same number; "" if there is none.
 func c16InexactText(v cty.Value) string {
 	cls := ""
@@ -806,11 +828,11 @@ func c16InexactText(v cty.Value) string {
 		if _, acc := f.Float64(); acc == big.Exact && !f.IsInt() {
 			return
 		}
-		back, _, err := big.ParseFloat(f.Text('f', -1), 10, 512, big.ToNearestEven)
+		back, _, err := big.ParseFloat(c16EncText(f), 10, 512, big.ToNearestEven)
 		if err == nil && back.Cmp(f) == 0 {
 			return
 		}
-		if s := c16NumSig(f); cls == "" || s == "whole-beyond-int64-shortest-text-inexact" {
+		if s := c16NumSig(f); cls == "" || s == "whole-wider-than-512-bits" {
 			cls = s
 		}
 	}
@@ -840,10 +862,10 @@ func c16MaxRefinementText(v cty.Value) int {
 		}
 		tot := 0
 		if lo, _ := n.Range().NumberLowerBound(); lo.IsKnown() && !lo.AsBigFloat().IsInf() {
-			tot += len(lo.AsBigFloat().Text('f', -1))
+			tot += len(c16EncText(lo.AsBigFloat()))
 		}
 		if hi, _ := n.Range().NumberUpperBound(); hi.IsKnown() && !hi.AsBigFloat().IsInf() {
-			tot += len(hi.AsBigFloat().Text('f', -1))
+			tot += len(c16EncText(hi.AsBigFloat()))
 		}
 		if tot > m {
 			m = tot
@@ -1230,8 +1252,10 @@ func c16Mutate(ctx *Ctx, root *mpItem) *mpItem {
 
 // the hand-probed decoder candidates of DESIGN §8 #13 (they belong to C17; here they
 // are correspondence cases of the decoder model)
-func c16HandItems(ctx *Ctx) {
+func c16HandItems(ctx *Ctx) int {
 	tupS := cty.Tuple([]cty.Type{cty.String})
+	optA := cty.ObjectWithOptionalAttrs(map[string]cty.Type{"a": cty.String, "b": cty.Number}, []string{"a"})
+	plainUnknown := func() *mpItem { return &mpItem{kind: "ext", code: 0, raw: []byte{0}, hdr: "other"} }
 	objA := cty.Object(map[string]cty.Type{"a": cty.String})
 	objAB := cty.Object(map[string]cty.Type{"a": cty.String, "b": cty.String})
 	cases := []struct {
@@ -1275,10 +1299,57 @@ func c16HandItems(ctx *Ctx) {
 		{mpBin([]byte("ab")), cty.String},
 		{mpNil(), cty.Set(cty.String)},
 		{mpArr(mpStr("b"), mpStr("a"), mpStr("b")), cty.Set(cty.String)},
+		// /repo afdc0a2: the type of a decoded value never carries optional-attribute annotations
+		{mpNil(), optA},
+		{plainUnknown(), optA},
+		{mpExt(12, 1, []*mpItem{mpInt(1), mpBool(false)}, nil), optA},
+		{mpArr(), cty.List(optA)},
+		{mpMap(), cty.Map(optA)},
+		{mpArr(mpNil()), cty.Tuple([]cty.Type{optA})},
+		{mpMap(mpStr("a"), mpStr("x"), mpStr("b"), mpInt(1)), optA},
+		{mpMap(mpStr("a"), mpNil(), mpStr("b"), plainUnknown()), optA},
+		{mpArr(mpBin([]byte(`["object",{"a":"string"},["a"]]`)), mpNil()), cty.DynamicPseudoType},
+		{mpArr(mpBin([]byte(`["object",{"a":"string"},["a"]]`)), plainUnknown()), cty.DynamicPseudoType},
+		{mpArr(mpBin([]byte(`["list",["object",{"a":"string"},["a"]]]`)), mpArr()), cty.DynamicPseudoType},
+		// /repo 7775e8c: bytes that are not UTF-8 are not a string (a str item of that kind is outside the item model)
+		{mpBin([]byte{0xff}), cty.String},
+		{mpBin([]byte{'a', 0xc3}), cty.String},
+		{mpArr(mpBin([]byte{0xff})), cty.List(cty.String)},
+		{mpBin([]byte{0xff}), cty.Number},
+		// /repo 986ad55: all digits of a whole number beyond int64
+		{mpStr("9223372036854775808"), cty.Number},
+		{mpStr("13407807929942597099574024998205846127479365820592393377723561443721764030073546976801874298166903427690031858186486050853753882811946569946433649006084097"), cty.Number},
 	}
 	for _, c := range cases {
 		c16Decode(ctx, c.it, c.ty, "hand")
 	}
+	return len(cases)
+}
+
+// c16TwoBoundWitnesses: unknown numbers with two bounds that are witnesses of findings.
+func c16TwoBoundWitnesses() []cty.Value {
+	var out []cty.Value
+	add := func(lo cty.Value, loInc bool, hi cty.Value, hiInc bool) {
+		var v cty.Value
+		if p, _ := try(func() {
+			v = cty.UnknownVal(cty.Number).Refine().NumberRangeLowerBound(lo, loInc).NumberRangeUpperBound(hi, hiInc).NewValue()
+		}); !p {
+			out = append(out, v)
+		}
+	}
+	// repaired by /repo 986ad55 (was decode-own-output / inconsistent-bounds:whole-beyond-int64-shortest-text-inexact): must pass
+	add(cty.NumberFloatVal(math.Ldexp(1, 63)), true, cty.NumberUIntVal(1<<63), true)
+	add(cty.NumberFloatVal(math.Ldexp(1, 63)), true, cty.NumberFloatVal(1.844674407370955e+19), true)
+	add(cty.NumberFloatVal(-1e22), false, cty.NumberFloatVal(1e30), false)
+	// recorded: bounds wider than the 512 bits the decoder parses at move onto each other
+	add(cty.MustParseNumberVal("13407807929942597099574024998205846127479365820592393377723561443721764030073546976801874298166903427690031858186486050853753882811946569946433649006084096"), false, c16Wide(512, 1), true)
+	add(c16Wide(513, 1), true, c16Wide(513, 3), false)
+	// recorded: a bound of a non-standard precision moves past the other bound
+	add(c16BF(100, "0.1"), false, cty.MustParseNumberVal("0.1"), true)
+	add(cty.MustParseNumberVal("0.1"), true, c16BF(600, "0.1"), false)
+	add(c16BF(100, "-3.3"), true, cty.MustParseNumberVal("-3.3"), false)
+	add(cty.MustParseNumberVal("-3.3"), false, c16BF(100, "-3.3"), true)
+	return out
 }
 
 var c16ParsePool = []string{"", "0", "-0", "+0", "1", "-1", "007", "1.", ".5", "-.5", "+.5", ".", "-", "+", "1.2.3", "1..2", "--1", "+-1", "1_0", "1e3", "1E3", "1p4", "0x10", "0b1", "Inf", "-Inf", "+Inf", "inf", "-inf",
@@ -1307,6 +1378,7 @@ func runC16(ctx *Ctx) {
 		c16Case(ctx, n, cty.DynamicPseudoType, "numpool-dyn")
 		c16Case(ctx, cty.ListVal([]cty.Value{n, cty.UnknownVal(cty.Number)}), cty.List(cty.Number), "numpool-list")
 		c16Parse(ctx, n.AsBigFloat().Text('f', -1))
+		c16Parse(ctx, c16EncText(n.AsBigFloat()))
 		if !n.AsBigFloat().IsInf() {
 			for _, incl := range []bool{true, false} {
 				var lo, hi cty.Value
@@ -1323,7 +1395,28 @@ func runC16(ctx *Ctx) {
 	for _, s := range c16ParsePool {
 		c16Parse(ctx, s)
 	}
-	c16HandItems(ctx)
+	nHand := c16HandItems(ctx)
+	// 1b. regression witnesses of the repaired findings with root cause whole-beyond-int64-shortest-text-inexact
+	// (they must pass), and the witnesses of the recorded ones that need two bounds
+	for _, w := range c16TwoBoundWitnesses() {
+		c16Case(ctx, w, cty.Number, "witness")
+	}
+	// 1c. /repo afdc0a2: constraints with optional-attribute annotations (Marshal ignores them, Unmarshal takes them off)
+	{
+		optA := cty.ObjectWithOptionalAttrs(map[string]cty.Type{"a": cty.String, "b": cty.Number}, []string{"a"})
+		full := cty.ObjectVal(map[string]cty.Value{"a": cty.NullVal(cty.String), "b": cty.NumberFloatVal(math.Ldexp(1, 70))})
+		plain := cty.Object(map[string]cty.Type{"a": cty.String, "b": cty.Number})
+		c16Case(ctx, full, optA, "optional-attrs")
+		c16Case(ctx, cty.NullVal(plain), optA, "optional-attrs")
+		c16Case(ctx, cty.UnknownVal(plain), optA, "optional-attrs")
+		c16Case(ctx, cty.UnknownVal(plain).RefineNotNull(), optA, "optional-attrs")
+		c16Case(ctx, cty.ListValEmpty(plain), cty.List(optA), "optional-attrs")
+		c16Case(ctx, cty.ListVal([]cty.Value{full, cty.NullVal(plain)}), cty.List(optA), "optional-attrs")
+		c16Case(ctx, cty.MapValEmpty(plain), cty.Map(optA), "optional-attrs")
+		c16Case(ctx, cty.SetValEmpty(plain), cty.Set(optA), "optional-attrs")
+		c16Case(ctx, cty.TupleVal([]cty.Value{cty.NullVal(plain), full}), cty.Tuple([]cty.Type{optA, optA}), "optional-attrs")
+		c16Case(ctx, cty.ObjectVal(map[string]cty.Value{"x": cty.NullVal(plain)}), cty.Object(map[string]cty.Type{"x": optA}), "optional-attrs")
+	}
 	// 2. small integers around every width boundary of the integer encodings (exhaustive)
 	for _, c := range []int64{0, 127, 255, 65535, 4294967295, -32, -128, -32768, -2147483648} {
 		for d := int64(-2); d <= 2; d++ {
@@ -1331,14 +1424,14 @@ func runC16(ctx *Ctx) {
 		}
 	}
 	ctx.res.Exhaustive = true
-	ctx.res.Scope = fmt.Sprintf("all %d pool numbers (limits of int64/uint64 ±1, whole beyond, exact float64, decimals, non-standard precisions, ±inf, ±0) bare, under the placeholder, in a list and as inclusive/exclusive bounds; every integer within 2 of each width boundary of the integer encodings; %d number spellings; %d hand-made decoder inputs", len(c16NumPool), len(c16ParsePool), 37)
+	ctx.res.Scope = fmt.Sprintf("all %d pool numbers (limits of int64/uint64 ±1, whole beyond, exact float64, decimals, non-standard precisions, ±inf, ±0) bare, under the placeholder, in a list and as inclusive/exclusive bounds; every integer within 2 of each width boundary of the integer encodings; %d number spellings; %d hand-made decoder inputs", len(c16NumPool), len(c16ParsePool), nHand)
 
 	// 3. random (value, constraint) pairs
 	n := ctx.N(2600, 60000)
 	depth := ctx.N(3, 4)
 	for i := 0; i < n; i++ {
 		o := c16Opts{unknown: r.Intn(4) != 0, null: r.Intn(3) != 0}
-		tyo := TyOpts{Dyn: r.Intn(3) != 0}
+		tyo := TyOpts{Dyn: r.Intn(3) != 0, Opt: r.Intn(4) == 0}
 		tag := "random"
 		switch r.Intn(12) {
 		case 0:
